@@ -83,8 +83,16 @@ def main():
         for commit, checks in PREFIX.items():
             for c in checks:
                 jobs.append(("prefix", commit, c, commit, True, "quick"))
+    # optional restriction (rows that are not re-run are kept from the last record): MATRIX_ONLY_CHECKS=C01,C04 and / or MATRIX_ONLY_CHANGES=<regex>
+    import re
+    only_checks = set(filter(None, os.environ.get("MATRIX_ONLY_CHECKS", "").split(",")))
+    only_changes = os.environ.get("MATRIX_ONLY_CHANGES", "")
+    restricted = bool(only_checks or only_changes)
+    if restricted:
+        jobs = [j for j in jobs if j[2] in only_checks or (only_changes and re.search(only_changes, j[1]))]
+    print("jobs:", len(jobs), flush=True)
     results = []
-    with concurrent.futures.ThreadPoolExecutor(max_workers=7) as ex:
+    with concurrent.futures.ThreadPoolExecutor(max_workers=int(os.environ.get("MATRIX_WORKERS", "7"))) as ex:
         futs = {ex.submit(run, j[3], j[2], j[4], j[5]): j for j in jobs}
         for f in concurrent.futures.as_completed(futs):
             j = futs[f]
@@ -94,12 +102,13 @@ def main():
     results = [r for r in results if not (r[0] == "seeded" and r[1] in NOT_EXPECTED and r[4] == "ok")] + \
               [(r[0], r[1], r[2], r[3], "ok (expected: not detected)", r[5]) for r in results if r[0] == "seeded" and r[1] in NOT_EXPECTED and r[4] == "ok"]
     results.sort()
+    rerun = {(r[0], r[1], r[2]) for r in results}
     path = os.path.join(ROOT, "seeded", "RESULTS.md")
     old = open(path).read() if os.path.exists(path) else ""
     # rows of the kinds that were not run this time are kept from the last record
     for line in old.splitlines():
         cells = [c.strip() for c in line.strip().strip("|").split("|")]
-        if len(cells) == 6 and cells[0] in ("seeded", "benign", "prefix") and cells[0] not in which:
+        if len(cells) == 6 and cells[0] in ("seeded", "benign", "prefix") and (cells[0] not in which or (restricted and (cells[0], cells[1], cells[2]) not in rerun)):
             results.append(tuple(cells))
     results.sort()
     with open(path, "w") as f:
